@@ -17,7 +17,7 @@ RULE = ("integer literals (sign x {decimal, octal, hexadecimal}) at every type l
         "1..25-digit literals, read with all four integer getters and compared with the mathematical value; decimal floating "
         "literals compared bit-exactly with correct rounding computed in exact rational arithmetic; booleans: all strings up to the "
         "tier's length over a 31-symbol alphabet containing every letter of the six words, their djb2 neighbours and separators "
-        "(harness/num.c boolx), random longer strings; files with bare keys; distinct by literal")
+        "(harness/num.c boolx), random longer strings; files with keys without value in every position (last line with and without line break, behind longer lines that end in digits, a comment glued to them) x delimiter sets; distinct by literal")
 EXHAUSTIVE = {"quick": True, "thorough": True}
 LIMITS = {"int": (-2**31, 2**31 - 1), "uint": (0, 2**32 - 1), "int64": (-2**63, 2**63 - 1), "uint64": (0, 2**64 - 1)}
 
@@ -182,6 +182,20 @@ def scenarios(tier, rng):
         s.add("GET", 0, ty, "-", h(b"bare"))
     s.meta["impl_only"] = True
     out.append(s)
+    # keys without value in every position: on the last line with and without a line break, behind longer lines that end in
+    # digits, with a comment glued to them; read with several delimiter sets; no numeric getter may answer with a number
+    BARE = [(b"RETRY 4242\n\nQUIET", b" \t", [b"QUIET"]), (b"ab = 77\n\nfl", b"=", [b"fl"]), (b"RETRY 4242\n\nQUIET#7\n", b" \t", [b"QUIET"]),
+            (b"x=12345678\n\nbare\n", b"=", [b"bare"]), (b"longer line = 99 # c\n\nz", b" =", [b"z"]), (b"n=1\n\nb1\n\nb2", b"=", [b"b1", b"b2"]),
+            (b"[S]\nport 8080\n\nverbose;1", b" ", [b"verbose"]), (b"a:=5\n\nlast", b":=", [b"last"])]
+    for i, (content, delim, keys) in enumerate(BARE):
+        for cm in ((b";", b"#;") if b";" in content else (b"#", b"#;")):
+            s = Scenario("bare%d_%d" % (i, len(cm)), {"bare": True, "barekeys": keys})
+            s.file(b"/f.conf", content)
+            s.add("RF", 0, h(b"/f.conf"), h(delim), h(cm))
+            s.add("RAW", 0)
+            s.add("ALLGET", 0)
+            s.meta["impl_only"] = True
+            out.append(s)
     return out
 
 
@@ -228,6 +242,16 @@ def oracle(s, lines):
                 return "boolean text %r: %r, expected %r" % (w, got, want)
             if want is None and got.startswith("get E0"):
                 return "text %r accepted as boolean: %r" % (w, got)
+        return None
+    if m.get("barekeys"):
+        if not lines or lines[0] != "rf E0 obj":
+            return "file with keys without value not read: %r" % lines[:1]
+        for k in m["barekeys"]:
+            for l in lines:
+                if l.startswith("ag " + h(k) + " ") and any(t in l for t in (" i E0", " l E0", " u E0", " w E0", " f E0", " d E0")):
+                    return "the key %r has no value but a numeric getter answers with a number: %r" % (k, l)
+            if not any(l.startswith("ag " + h(k) + " ") for l in lines):
+                return "the key %r (without value) is not listed: %r" % (k, [l for l in lines if l.startswith("ag ")])
         return None
     if m.get("bare"):
         for l in lines:
